@@ -85,29 +85,33 @@ BAH_TODS = ((0, 0), (9, 15), (14, 30), (21, 0), (23, 59))
 WEEKDAYS = ("MON", "TUE", "WED", "THU", "FRI")
 UNKNOWN_WEEKDAYS = ("SAT", "SUN", "sat", "Sun", "", "MONDAY", "friday", "XYZ", "M", "MO", "TUES", "WEEKDAY", "1")
 LONG_LENGTHS = (366, 800)
+MID_LENGTHS = (31, 33, 70)
 MAX_FAILURES = 25
 
 BOUND = (
     "Start date: every date 2015-12-15 .. 2032-03-15 (5935 dates: every weekday alignment, every month end incl. "
-    "those on Saturdays/Sundays, every year end, February of the leap years 2016/2020/2024/2028).  For each start "
-    "date and each start time of day in {00:00, 09:15, 14:30} UTC: (a) end = start date + L days at 23:59 for L "
-    "in {0,1,2,3,4,5,6,7,8,9,10,31,33,70}; (b) end = start date + L days at the start's own time of day "
-    "(edge of 'end time of day not before the start's') for L in {0,1,3,7,31}.  For each such range: "
-    "WeeklyRebalance for each of MON..FRI (letter case rotating over UPPER/lower/Title/mIXED) x pre_market in "
-    "{False, True}; DailyRebalance x {False, True}; EndOfMonthRebalance x {False, True}; each compared with the "
-    "pure-datetime oracle and with the timestamps of the real clock run on the same range.  (a') the long lengths "
-    "L in {366, 800} (end at 23:59) for every start date with ONE start time of day (rotating with the date over "
-    "the three) and 8 constructions: MON..FRI and daily with one pre_market value each (rotating with date, "
-    "weekday and length so that both values occur for every weekday/length across consecutive dates), "
-    "end-of-month with both.  For each start date: "
-    "BuyAndHoldRebalance at start times {00:00, 09:15, 14:30, 21:00, 23:59}; WeeklyRebalance on (start 00:00, "
-    "+7 days 23:59) with each of 13 unknown weekday strings (SAT, SUN, sat, Sun, '', MONDAY, friday, XYZ, M, MO, "
-    "TUES, WEEKDAY, 1).  thorough = the whole product (about 4.9 million constructions), exhaustive.  quick = a "
-    "fixed boundary set of start dates (one full week, +-2 days around every leap day, every year end, twelve "
-    "month ends falling on a weekend, the window ends) with the start time rotating, lengths {0,2,5,33} of "
-    "shape (a) and {0,7} of shape (b), every weekday, both pre_market flags, plus buy-and-hold and unknown "
-    "weekdays on those dates; then a random.Random(seed) sample of 200 ranges from the full product, each with "
-    "its 14 (8 for the long lengths) schedule constructions and one buy-and-hold; not exhaustive."
+    "those on Saturdays/Sundays, every year end, February of the leap years 2016/2020/2024/2028).  Ranges per "
+    "start date d, start time of day t in {00:00, 09:15, 14:30} UTC: (a) end = d + L days at 23:59; (b) end = d + "
+    "L days at t itself (edge of 'end time of day not before the start's'; L=0 is end == start).  Short: every t x "
+    "(a) L in {0..10} and (b) L in {0,1,3,7}.  Mid: (a) L in {31,33,70} and (b) L=31 with ONE t per start date "
+    "(t rotates with the date ordinal mod 3).  For each short/mid range 14 constructions: WeeklyRebalance for each "
+    "of MON..FRI (letter case rotating over UPPER/lower/Title/mIXED) x pre_market in {False, True}; DailyRebalance "
+    "x {False, True}; EndOfMonthRebalance x {False, True}.  Long: (a) L=366 on even date ordinals, L=800 on odd "
+    "ones, one t (rotating), 8 constructions: MON..FRI and daily with one pre_market value each (rotating with "
+    "date and weekday), end-of-month with both.  Every construction is compared with the pure-datetime oracle "
+    "and with the timestamps of the real clock run on the same range.  (The rotation exists because the library "
+    "spends ~0.15 ms per generated stamp; the crossed product would take > 10 min on 16 cores.)  For each start "
+    "date also: BuyAndHoldRebalance at start times {00:00, 09:15, 14:30, 21:00, 23:59}; WeeklyRebalance on "
+    "(d 00:00, d+7 23:59) with each of 13 unknown weekday strings (SAT, SUN, sat, Sun, '', MONDAY, friday, XYZ, M, "
+    "MO, TUES, WEEKDAY, 1).  thorough = that whole product (about 4.2 million constructions), exhaustive w.r.t. "
+    "it.  quick = a fixed boundary set of start dates (one full week, +-2 days around every leap day, every year "
+    "end, twelve month ends falling on a weekend, the window ends) with the start time rotating, lengths "
+    "{0,2,5,33} of shape (a) and {0,7} of shape (b), every weekday, both pre_market flags, plus buy-and-hold and "
+    "unknown weekdays on those dates; then, for the 24 months 2019-12..2021-11, ranges of 3 and 31 days ending "
+    "exactly on, ending the day before, starting on and starting the day after the month's last business day "
+    "(end-of-month, daily, and weekly on that weekday); then a random.Random(seed) sample of 200 ranges (start "
+    "date, start time, shape, length drawn independently from the sets above), each with its 14 (8 for the long "
+    "lengths) schedule constructions and one buy-and-hold; not exhaustive."
 )
 
 RULE = (
@@ -410,23 +414,31 @@ def per_date_extras(d):
 
 
 def cases_for_start_date(d, tods=START_TODS, lengths_a=cal.RANGE_LENGTHS, lengths_b=cal.EQUAL_TOD_LENGTHS):
-    """All cases of the stated bound whose start date is d (no duplicates by construction)."""
+    """All cases of the stated bound whose start date is d (no duplicates by construction).
+
+    The library spends about 0.15 ms per generated stamp (string parsing), so only the ranges up to 10 days are
+    crossed with all three start times; for the others one dimension rotates with the date (see BOUND)."""
     out = []
+    o = d.toordinal()
+    own_tod = o % len(tods)                      # the start time of day this date uses where the time rotates
     for n, tod in enumerate(tods):
         for li, length in enumerate(lengths_a):
             if length in LONG_LENGTHS:
-                # the two long lengths: the library spends ~0.15 ms per generated stamp in string parsing, so
-                # start time of day and pre_market flag rotate with the date instead of being crossed
-                if len(tods) > 1 and n != d.toordinal() % len(tods):
+                # 366 on even ordinals, 800 on odd ones; one start time; pre_market flag rotating (8 constructions)
+                if n != own_tod or LONG_LENGTHS.index(length) != o % 2:
                     continue
                 s, e = _shape_a(d, tod, length)
-                out.extend(cases_for_range(s, e, d.toordinal() + li, reduced=True))
+                out.extend(cases_for_range(s, e, o // 2, reduced=True))
+                continue
+            if length in MID_LENGTHS and n != own_tod:
                 continue
             s, e = _shape_a(d, tod, length)
-            out.extend(cases_for_range(s, e, d.toordinal() + length))
+            out.extend(cases_for_range(s, e, o + length))
         for length in lengths_b:
+            if length in MID_LENGTHS and n != own_tod:
+                continue
             s, e = _shape_b(d, tod, length)
-            out.extend(cases_for_range(s, e, d.toordinal() + length + 1))
+            out.extend(cases_for_range(s, e, o + length + 1))
     out.extend(per_date_extras(d))
     return out
 
@@ -448,6 +460,27 @@ def _quick_cases(seed):
         tod = START_TODS[n % 3]
         for c in cases_for_start_date(d, tods=(tod,), lengths_a=(0, 2, 5, 33), lengths_b=(0, 7)):
             yield c
+    # ranges anchored on the last business day of a month (24 consecutive months): ending exactly on it with the
+    # end's time of day equal to the start's, ending the day before it, starting on it, starting the day after it
+    y, m = 2019, 12
+    for n in range(24):
+        last = cal.last_business_day_of_month(y, m)
+        tod = START_TODS[n % 3]
+        for length in (3, 31):
+            anchored = (
+                _shape_b(last - length * cal.DAY, tod, length),
+                _shape_a(last - (length + 1) * cal.DAY, tod, length),
+                _shape_a(last, tod, length),
+                _shape_a(last + cal.DAY, tod, length),
+            )
+            for s, e in anchored:
+                for pre in (False, True):
+                    yield make_case("eom", s, e, None, pre)
+                    yield make_case("daily", s, e, None, pre)
+                yield make_case("weekly", s, e, _weekday_variant(WEEKDAYS[last.weekday()], n), bool(n % 2))
+        m += 1
+        if m == 13:
+            y, m = y + 1, 1
     # seeded sample of ranges from the full product
     rng = random.Random(seed)
     dates = cal.window_dates()
